@@ -88,5 +88,7 @@ inline BreakLog& breakLog() { static BreakLog b; return b; }
 
 extern "C" inline void hfsm2_verif_break(const char* file, int line) noexcept {
 	const char* base = strrchr(file, '/');
+	const long before = vf::allocCount();			// the handler's own bookkeeping is not the library's allocation
 	vf::breakLog().hits.emplace_back(base ? base + 1 : file, line);
+	vf::allocCount() = before;
 }
